@@ -448,3 +448,6 @@ func C04_Pause()     { focus = "C04"; sceneCtxMsg(opPause, cmOne) }
 func C04_Start()     { focus = "C04"; sceneCtxMsg(opStart, cmOne) }
 func C04_Kill()      { focus = "C04"; sceneCtxMsg(opKill, cmOne) }
 func C04_UpdateCtx() { focus = "C04"; sceneCtxMsg(opUpdate, cmOne) }
+
+// C06: "its current price" is the price the binding publishes: the stored price terms follow every update
+func C06_UpdateBinding() { focus = "C06"; sceneBindingMsg(opUpdBinding, bmPlain) }
